@@ -372,7 +372,7 @@ func leafSame(a, b route.Leaf) bool { return a == b }
 
 func TestProp(t *testing.T) {
 	evid.Rapid(t, "params", 4000, 60000, func(t *rapid.T) {
-		pool := gen.SegPoolW(t, 6, false, [3]int{15, 35, 85})
+		pool := gen.SegPoolW(t, 6, rapid.IntRange(0, 2).Draw(t, "wildspacing") == 0, [3]int{15, 35, 85}) // one set in three is spelled with 0..3 blanks after ":" and ","
 		opts := gen.SetOpts{MaxRoutes: 6, Route: gen.RouteOpts{SegmentPool: pool}}
 		if evid.Thorough() {
 			opts.MaxRoutes, opts.Route.MaxSegs = 10, 6
